@@ -316,6 +316,11 @@ def build(spec, anc=None):
         for _ in range(spec["n"]):
             l = [l]
         return l
+    if t == "nest":
+        l = build(spec["leaf"], anc)
+        for _ in range(spec["n"]):
+            l = [l]
+        return l
     if t == "exotic":
         return build_exotic(spec, [build(s, anc) for s in spec["kids"]])
     items = [build(s, anc) for s in spec["items"]]
@@ -503,6 +508,8 @@ def ref_repr(spec, q=False, anc=None):
             anc.pop()
     if t == "deep":
         raise RecursionError()
+    if t == "nest":
+        return "[" * spec["n"] + ref_repr(spec["leaf"], q, []) + "]" * spec["n"]
     if t == "exotic":
         raise Unsupported()
     if t == "kept":
@@ -572,6 +579,12 @@ def generate(rng, tier):
             ops.append({"value": {"t": "deep", "n": rng.choice([1200, 5000])}})
             prev_failed_like = True
             continue
+        if rng.random() < 0.04:
+            # a value under many plain containers, well inside the recursion limit (depth thresholds, counters)
+            ops.append({"value": {"t": "nest", "n": rng.choice([17, 32, 33, 64, 100, 127, 128, 129, 199, 200, 201, 250]),
+                                  "leaf": rng.choice([{"t": "sym", "v": "a"}, {"t": "mlist", "items": [{"t": "sym", "v": "b"}, {"t": "int", "v": 1}]},
+                                                      {"t": "int", "v": 7}, {"t": "str", "v": "s"}])}})
+            continue
         if prev_failed_like and ops and rng.random() < 0.3 and ops[-1]["value"]["t"] != "deep":
             # same value again, no injected fault: lands right after a failure
             ops.append({"value": ops[-1]["value"]})
@@ -596,6 +609,8 @@ def generate(rng, tier):
             op["exc"] = rng.choice(["fault", "fault", "fault", "base", "kbd"])
             if tier == "thorough" and rng.random() < 0.08:
                 op["enum"] = True
+        if rng.random() < 0.06:
+            op["pretty_off"] = True
         prev_failed_like = "k" in op or _has_raise(v)
         ops.append(op)
     return {"ops": ops, "fork_ref": rng.random() < (0.05 if tier == "thorough" else 0.01)}
@@ -687,11 +702,24 @@ def execute(desc):
     kept_objs, kept_specs = {}, {}
     CTX.kept_specs = kept_specs
 
-    def one(i, spec, k, exc, tag, keep=False):
+    def one(i, spec, k, exc, tag, keep=False, pretty_off=False):
         nonlocal failed_before, nontrivial
         slot = [None]
-        got, n, fired = _call(sut, sut_code, spec, k, exc, register=_S["hy"].repr_register, kept=kept_objs,
-                              keep_into=slot if keep else None)
+        M = _S["hy"].models
+        if pretty_off:
+            # the call is made under `with hy.models.pretty(False)`: whatever happens inside (a printer that raises,
+            # an injected fault), the configuration must be back afterwards
+            with M.pretty(False):
+                got, n, fired = _call(sut, sut_code, spec, k, exc, register=_S["hy"].repr_register, kept=kept_objs,
+                                      keep_into=slot if keep else None)
+            probes["calls_under_pretty_false"] = probes.get("calls_under_pretty_false", 0) + 1
+        else:
+            got, n, fired = _call(sut, sut_code, spec, k, exc, register=_S["hy"].repr_register, kept=kept_objs,
+                                  keep_into=slot if keep else None)
+        if M.PRETTY is not True:
+            viols.append({"clause": "configuration_leak", "sig": "models.PRETTY",
+                          "detail": {"op": i, "tag": tag, "PRETTY": repr(M.PRETTY), "outcome": got[0]}})
+            M.PRETTY = True
         if keep:
             kept_objs[i] = slot[0]
             kept_specs[i] = spec
@@ -759,7 +787,7 @@ def execute(desc):
                 # later calls may name this op's object: make the op's own call too, keeping the object
                 one(i, spec, op.get("k"), op.get("exc"), "op", keep=True)
         else:
-            one(i, spec, op.get("k"), op.get("exc"), "op", keep=bool(op.get("keep")))
+            one(i, spec, op.get("k"), op.get("exc"), "op", keep=bool(op.get("keep")), pretty_off=bool(op.get("pretty_off")))
     for j, p in enumerate(PROBES):
         one(len(desc["ops"]) + j, p, None, None, "probe")
 
